@@ -84,6 +84,9 @@ def main():
         jobs = 4
         if "-j" in args:
             i = args.index("-j"); jobs = int(args[i + 1]); del args[i:i + 2]
+        outp = None
+        if "-o" in args:
+            i = args.index("-o"); outp = args[i + 1]; del args[i:i + 2]
         allp = "-all" in args
         verbose = "-v" in args
         args = [a for a in args if a not in ("-all", "-v")]
@@ -104,6 +107,7 @@ def main():
             new, out = run_patch(f, props)
             return f, exp, neutral, new, out
         ok = miss = 0
+        results = []
         baseline(reg) if (allp) else None
         with ThreadPoolExecutor(max_workers=jobs) as ex:
             for f, exp, neutral, new, out in ex.map(work, files):
@@ -121,7 +125,11 @@ def main():
                 if (not good) or verbose:
                     for n in new: print("      ", n[1], n[2])
                 ok += good; miss += (not good)
+                results.append({"patch": rel, "expected": exp, "kind": "neutral" if neutral else ("seeded" if rel.startswith("seeded/") else "mutant"),
+                                "result": tag.strip(), "fired": fired, "new_reports": [[n[0], n[1], n[2]] for n in new]})
         print(f"{ok} as expected, {miss} not")
+        if outp:
+            json.dump(results, open(outp, "w"), indent=1)
         return 0 if miss == 0 else 1
 
 sys.exit(main())
